@@ -42,6 +42,8 @@ func knownText(c knownCase, s string) string {
 	for _, r := range c.Refs[s] {
 		sb.WriteString(`  "` + short + "_to_" + strings.TrimPrefix(r, "@") + `": ` + r + ", // {optional: true}\n")
 	}
+	// every text has a rule set of its own: an unnamed type that has to reach the root together with the type it stands in
+	sb.WriteString(`  "set_` + short + `": 1, // {or: [{type: "integer"}, {type: "string", minLength: 1}]}` + "\n")
 	sb.WriteString(`  "own_` + short + `": 1` + "\n}")
 	return sb.String()
 }
